@@ -25,6 +25,7 @@ import asyncio
 import logging
 import os
 import random
+import re
 import socket
 import sys
 
@@ -1310,7 +1311,7 @@ def generate(ctx: Ctx):
     ctx.extra["translated"] = {"classes": [c["name"] for c in meta["classes"]],
                                "scripts": {c["name"]: c["script"] for c in meta["classes"]},
                                "tunnel_endpoint_forwards": meta["forwards"], "sleep_guards": meta["guards"],
-                               "default_remove_tunnel_delay": meta["delay"]}
+                               "default_remove_tunnel_delay": meta["delay"], "scheduler_facts": meta["scheduler_facts"]}
     return [("Ipv8/C11/GenOverlays.lean", src)]
 
 
@@ -1843,7 +1844,24 @@ def tm_self_periodic_case(rng, on_cache):
     return desc, findings
 
 
+# Fixed sequences that every run executes first: they reach the rare branch classes deterministically (a replacement whose
+# name was taken while the slow old task was dying; a refused continuation; a shutdown from the manager's own task).
+CURATED_TM = [
+    ["t reg 1 long 0 1 2", "t settle", "t replace 1 imm 0 1 0", "t settle", "t reg 1 interval 1 2 0", "t tick", "t tick",
+     "t tick", "t settle", "t active 1", "t cancel 1", "t cancel 2", "t settle"],
+    ["t reg 0 long 0 1 2", "t reg 3 fut 0 1 0", "t settle", "t replace 0 delayed 2 1 0", "t settle", "t shutdown", "t tick",
+     "t tick", "t tick", "t reg 2 imm 0 1 0", "t shutdown", "t settle"],
+    ["t reg 2 long 0 1 0", "t reg 1 interval 0 1 0", "t reg 3 delayed 3 1 0", "t settle", "t selfshutdown 2", "t settle",
+     "t tick", "t reg 0 fut 0 1 0", "t settle"],
+]
+
+
 def tm_case(ctx: Ctx, rng, n_ops):
+    if ctx is not None and ctx.counts.get("tm-curated", 0) < len(CURATED_TM):
+        lines = CURATED_TM[ctx.counts.get("tm-curated", 0)]
+        ctx.count("tm-curated")
+        impl, kinds, findings = tm_exec(lines)
+        return lines, impl, kinds, findings
     lines = tm_gen(rng, n_ops)
     impl, kinds, findings = tm_exec(lines)
     return lines, impl, kinds, findings
@@ -1984,7 +2002,7 @@ def run_cache(ctx: Ctx, rng, n_cases, use_model):
         all_impl += ["ok"] + impl
         all_src += ["reset"] + lines
     if use_model and all_model:
-        replies = ctx.driver().batch(all_model)
+        replies = model_batch(ctx, all_model)
         bad = 0
         for i, (ln, m, im) in enumerate(zip(all_src, replies, all_impl)):
             if ln.startswith("c tick"):
@@ -2239,6 +2257,64 @@ def run_scenarios(ctx: Ctx, rng, per_combo_steps, per_combo_times, limit=None):
     return n
 
 
+# Branch classes of the hand-written model definitions (tags computed by the driver from the same conditions as the model).
+# Every one of them has to be exercised by the correspondence of EVERY run: a class that stays at zero is a silent loss of
+# coverage and makes the run fail with an infrastructure error (exit 2), not pass.
+REQUIRED_BRANCHES = [
+    # Reg / World (interfaces/endpoint.py, anonymization/endpoint.py, crypto.py proxy)
+    "reg.add.direct", "reg.add.via-wrapper-forwarded", "reg.add.no-prefix-lists", "reg.add.appended-to-prefix-lists",
+    "reg.addp.existing-prefix", "reg.addp.new-prefix", "reg.addp.no-generic-listeners", "reg.addp.copies-generic-listeners",
+    "reg.rm.direct", "reg.rm.via-wrapper-forwarded", "reg.rm.generic-listener", "reg.rm.not-generic", "reg.rm.prefix-listener",
+    "reg.rm.not-in-prefix-lists", "reg.rm.prefix-entry-dropped", "reg.rm.prefix-entries-kept",
+    "reg.fwd.new", "reg.fwd.replaces", "reg.unfwd", "reg.open", "reg.close", "reg.ref.set", "reg.ref.cleared",
+    "reg.anon.on", "reg.anon.off",
+    "notify.closed", "notify.prefix-list", "notify.generic-listeners", "notify.proxy-forwards", "notify.no-proxy-forward",
+    "tnotify.from-tunnel", "tnotify.from-socket", "tnotify.anonymize-filter-drops", "tnotify.anonymize-filter-keeps-all",
+    "tnotify.duplicate-delivered-once", "tnotify.no-duplicate", "driven.refers-to-community", "driven.no-community",
+    # TM (taskmanager.py, requestcache.py through the same model)
+    "register.ok", "register.active-name-raises", "register.refused-after-shutdown",
+    "register.kind.imm", "register.kind.long", "register.kind.delayed", "register.kind.interval", "register.kind.fut",
+    "cancel.unknown-name", "cancel.task-cancel-requested", "cancel.future-completes-at-once",
+    "replace.waits-for-old-task", "replace.nothing-to-wait-for",
+    "shutdown.already-down", "shutdown.nothing-tracked", "shutdown.cancels-tracked-tasks", "shutdown.from-own-task",
+    "is-active.true", "is-active.false",
+    "deliver.done", "deliver.cancel-immediate", "deliver.cancel-starts-dying", "deliver.cancel-still-dying", "deliver.cancel-died",
+    "deliver.imm-runs", "deliver.long-starts", "deliver.long-waits", "deliver.delayed-fires", "deliver.delayed-waits",
+    "deliver.interval-fires", "deliver.interval-waits", "deliver.fut-waits",
+    "cont.fires-ok", "cont.fires-name-taken", "cont.fires-refused", "cont.still-waiting", "pass.untracks-finished",
+    # Svc (ipv8_service.py)
+    "svc.add.known-overlay", "svc.add.new-overlay", "svc.unload.no-strategy", "svc.unload.one-strategy",
+    "svc.unload.several-strategies", "svc.unload.listed-overlay", "svc.unload.unlisted-overlay",
+    # unload scripts (generated): every statement kind that occurs in a shipped script, on every endpoint stack of the model
+    "unload.stack.0", "unload.stack.1", "unload.stack.2",
+]
+# model branches that a correct tree cannot reach (kept for the record): the wrapper's own unused lists
+# ("reg.add.via-wrapper-own-lists", "reg.rm.via-wrapper-own-lists": only with a non-forwarding wrapper), "cancel.finished-task"
+# (a finished task is untracked by its done-callback before any operation can see it).
+
+
+def model_batch(ctx: Ctx, lines):
+    """Run lines on a fresh model driver; the branch classes they exercised are added to the evidence distribution."""
+    replies = ctx.driver().batch([*lines, "coverage"])
+    cov = replies.pop()
+    for item in cov.split(";"):
+        if "=" in item:
+            tag, n = item.rsplit("=", 1)
+            ctx.count("branch:" + tag, int(n))
+    return replies
+
+
+def check_branch_coverage(ctx: Ctx):
+    import gen_c11
+    _, meta = gen_c11.translate()
+    ops = sorted({re.sub(r"[ (].*", "", op.strip("(")).lstrip(".") for c in meta["classes"] for op in c["script"]})
+    required = REQUIRED_BRANCHES + ["uop.Ipv8.C11.UOp." + o for o in ops]
+    missing = [b for b in required if ctx.counts.get("branch:" + b, 0) == 0]
+    ctx.extra["branch_classes"] = {"required": len(required), "missing": missing}
+    if missing:
+        raise InfraError("correspondence did not reach these branch classes of the model: " + ", ".join(missing))
+
+
 def gen_flags_from_driver(ctx: Ctx):
     d = ctx.driver()
     rep = d.batch(["gen"])[0]
@@ -2265,7 +2341,7 @@ def run_registry(ctx: Ctx, rng, n_cases, use_model):
     for _ in range(n_cases):
         registry_oracle(ctx, rng, flags)
     if use_model and all_lines:
-        replies = ctx.driver().batch(all_lines)
+        replies = model_batch(ctx, all_lines)
         bad = 0
         for i, (ln, m, im) in enumerate(zip(all_lines, replies, all_impl)):
             mm = canon_reach(m) if ln.startswith(("r notify", "r tnotify", "r driven")) else m
@@ -2300,7 +2376,7 @@ def run_tm(ctx: Ctx, rng, n_cases, use_model):
         all_lines += ["reset 1 1"] + lines
         all_impl += ["ok"] + impl
     if use_model and all_lines:
-        replies = ctx.driver().batch(all_lines)
+        replies = model_batch(ctx, all_lines)
         bad = 0
         for i, (ln, m, im) in enumerate(zip(all_lines, replies, all_impl)):
             if " order=0" in m:
@@ -2338,7 +2414,7 @@ def run_unload_static(ctx: Ctx, use_model):
                                              f"after unload() of the idle overlay: {' '.join(bad)}",
                                         {"kind": "unload-static", "cls": cls, "stack": stack, "with_exit": with_exit})
     if use_model:
-        replies = ctx.driver().batch(lines)
+        replies = model_batch(ctx, lines)
         for ln, m, im, mt in zip(lines, replies, impls, meta):
             if m != im:
                 ctx.disagree(f"unload script of {mt[0]} on {mt[1]} endpoint: model `{m}` != implementation `{im}`",
@@ -2448,7 +2524,7 @@ def run_service_ops(ctx: Ctx, rng, n_cases, use_model):
         loop.close()
         asyncio.set_event_loop(None)
     if use_model and all_lines:
-        replies = ctx.driver().batch(all_lines)
+        replies = model_batch(ctx, all_lines)
         bad = 0
         for i, (ln, m, im) in enumerate(zip(all_lines, replies, all_impl)):
             if m != im and bad < 5:
@@ -2476,6 +2552,8 @@ def run(ctx: Ctx):
     for cls in sorted(overlay_classes()):
         if not any(k == f"scenario:{cls}" for k in ctx.counts):
             raise InfraError(f"no scenario ran for shipped overlay class {cls}")
+    if use_model:
+        check_branch_coverage(ctx)
 
 
 def search(ctx: Ctx, reason: str):
